@@ -183,6 +183,29 @@ def catalogue():
             for iset in ("left", "right"):
                 add("cyc%d_g%d_%s" % (n, g, iset), "cyclic", {"n": n, "g": g, "info": iset},
                     lambda n=n, g=g, iset=iset: E.CyclicCodeEncoder(code_length=n, generator_polynomial=g, information_set=iset))
+    # cyclic / BCH / Golay / RS-style / extended Hamming with index-list and permuted information sets
+    for n, g in ((7, 11), (7, 29), (15, 19), (15, 465)):
+        k = n - (g.bit_length() - 1)
+        lst = sorted(rng.sample(range(n), k)); perm = lst[:]; rng.shuffle(perm)
+        for tag, iset in (("list", lst), ("perm", perm)):
+            add("cyc%d_g%d_%s" % (n, g, tag), "cyclic", {"n": n, "g": g, "info": list(iset), "info_kind": tag},
+                lambda n=n, g=g, iset=iset: E.CyclicCodeEncoder(code_length=n, generator_polynomial=g, information_set=list(iset)))
+    for mu, delta in ((3, 3), (4, 5), (4, 7)):
+        e0 = E.BCHCodeEncoder(mu=mu, delta=delta)
+        n, k = e0.code_length, e0.code_dimension
+        lst = sorted(rng.sample(range(n), k)); perm = lst[:]; rng.shuffle(perm)
+        for tag, iset in (("list", lst), ("perm", perm)):
+            add("bch%d_d%d_%s" % (mu, delta, tag), "bch", {"mu": mu, "delta": delta, "info": list(iset), "info_kind": tag},
+                lambda mu=mu, delta=delta, iset=iset: E.BCHCodeEncoder(mu=mu, delta=delta, information_set=list(iset)))
+    lst = sorted(rng.sample(range(8), 4)); perm = lst[:]; rng.shuffle(perm)
+    add("ham3_x1_perm", "hamming", {"mu": 3, "extended": True, "info": perm, "info_kind": "perm"}, lambda perm=perm: E.HammingCodeEncoder(mu=3, extended=True, information_set=list(perm)))
+    for ext in (False, True):
+        n = 24 if ext else 23
+        perm = rng.sample(range(n), 12)
+        add("golay_x%d_perm" % ext, "golay", {"extended": ext, "info": perm, "info_kind": "perm"}, lambda ext=ext, perm=perm: E.GolayCodeEncoder(extended=ext, information_set=list(perm)))
+    e0 = E.ReedSolomonCodeEncoder(mu=3, delta=3)
+    perm = rng.sample(range(e0.code_length), e0.code_dimension)
+    add("rs3_d3_perm", "reed_solomon", {"mu": 3, "delta": 3, "info": perm, "info_kind": "perm"}, lambda perm=perm: E.ReedSolomonCodeEncoder(mu=3, delta=3, information_set=list(perm)))
     for name in ("Hamming(7,4)", "Simplex(7,3)", "BCH(15,7)", "BCH(15,5)", "Golay(23,12)"):
         add("cycstd_" + "".join(ch for ch in name if ch.isalnum()), "cyclic_std", {"name": name}, lambda name=name: E.CyclicCodeEncoder.create_standard_code(name))
     for mu in (2, 3, 4, 5):
@@ -227,6 +250,23 @@ def catalogue():
             if rank(H) < n and rank(H) >= 1:
                 break
         add("ldpc%d" % idx, "ldpc", {"H": H.tolist(), "rank_deficient": idx >= 4}, lambda H=H: E.LDPCCodeEncoder(check_matrix=T(H)))
+    # rank-deficient user matrices whose dependent row is not the last one: (r1, r2, r1+r2, r3, ...), a duplicated first row, a zero row
+    for idx, kind in enumerate(("sum_mid", "dup_first", "zero_row")):
+        while True:
+            r = rng.randint(3, 5); n = rng.randint(r + 3, 13)
+            H = np.zeros((r, n), dtype=np.uint8)
+            for j in range(n):
+                for i in rng.sample(range(r), rng.randint(1, 2)):
+                    H[i, j] = 1
+            if rank(H) == r:
+                break
+        if kind == "sum_mid":
+            H = np.concatenate([H[:2], (H[0:1] ^ H[1:2]), H[2:]], axis=0)
+        elif kind == "dup_first":
+            H = np.concatenate([H[:1], H], axis=0)
+        else:
+            H = np.concatenate([H[:1], np.zeros((1, n), dtype=np.uint8), H[1:]], axis=0)
+        add("ldpcr%d_%s" % (idx, kind), "ldpc", {"H": H.tolist(), "rank_deficient": True}, lambda H=H: E.LDPCCodeEncoder(check_matrix=T(H)))
     return out
 
 
